@@ -7,7 +7,7 @@ VERIF = os.path.dirname(os.path.dirname(os.path.abspath(__file__)))
 
 # id -> (technique, level text, level note)
 CLAIMS = {
- "C01": ("SSA branch-fact (must) dataflow + CFG reachability + callee summaries: who-may-write-OK, allow-site justification, static fault enumeration over every error/absent result",
+ "C01": ("SSA branch-fact (must) dataflow + CFG reachability + callee summaries: who-may-write-OK, allow-site justification, static fault enumeration over every error/absent result, server-loop rule, store-level liveness rules (C10.R1–R3 filed as C01.R6)",
          "Decides, for every path through Check/Process and every position at which a store, IdP or key-source call can fail, that no OK writer is reachable without the justification facts (fresh or just-refreshed-and-persisted tokens under the cookie's session id). Structural necessary conditions of the fail-closed property for all inputs and fault positions; does not decide whether a stored session ought to be alive (C10) nor library internals.",
          "go/types+go/ssa model of /repo; role table (verdict writers, store interface, token exchange, validator) resolved from types; jwx/net/http contracts assumed"),
  "C06": ("type-resolved reference scan + SSA data-dependence slice from every generator method's result to a crypto/rand draw; production wiring by call-site provenance (whole-program SSA in thorough to follow oauth2.GenerateVerifier)",
@@ -28,7 +28,7 @@ CLAIMS = {
  "C16": ("consistent-lockset (guarded-by) analysis over own code: interprocedural must-lockset with closure/callback contexts and channel happens-before pseudo-locks, freshness (escape) exemption, goroutine-confinement idiom, lock-order graph, blocking-under-lock and unlock-pairing rules",
          "The static counterpart of the race detector over all pairs of accesses: for every location class written from a concurrency root on a shared object, every access reachable from any root must hold a common mutex or fall under an enumerated happens-before idiom. Two genuine races remain and are listed as known findings (Reconcile vs GetClientSecret; updateCA vs tls.Config readers). Library-internal races, actual schedules and deadlocks involving library locks are not decided.",
          "go/ssa model; location classes are type+field (alias-insensitive); run.Group start-up phase is single-threaded; sync.Mutex semantics"),
- "C02": ("access-path identity between the validated string and the stored ID token (branch facts), field-wise provenance of stored tokens, assumed-atom path feasibility on the validator (audience/nonce), forbidden-API scan over resolved callees, table rules on the header encoder",
+ "C02": ("access-path identity between the validated string and the stored ID token (branch facts), field-wise provenance of stored tokens, assumed-atom path feasibility on the validator (audience/nonce), forbidden-API scan over resolved callees, table rules on the header encoder, key-set provenance of every JWKSProvider implementation (requesting filter's configuration only)",
          "Decides that no SetTokenResponse is reachable unless the validator accepted the very ID token being stored and the other token fields come from this check's token-endpoint answer or the stored tokens; that the validator cannot return `valid` without key-set signature verification over the parsed bytes, a client-id audience match and (when required) a present, equal nonce; that no jwx shortcut option is used; and that OK headers are exactly the bound tokens under their own header/preamble. Acceptance of concrete forged tokens is delegated to jwx through the one permitted API shape.",
          "go/ssa model; jwx WithKeySet+WithInferAlgorithmFromKey contract"),
  "C04": ("branch facts at the code-exchange call, exact table rules on the token request (url.Values / http.Header literals) and on the exchange function, SSA value identity between issued and stored state/nonce/verifier, must-pass consumption rule",
@@ -40,10 +40,10 @@ CLAIMS = {
  "C13": ("provenance of the Location values, exact eight-key table rule with sources, guarded merge of the endpoint's own query, leaf-set rule on the stored return URL, constructor-provenance rule for every redirect answer",
          "Decides that the login Location is the rendering of the parsed authorization URI with RawQuery = Encode(table ∪ endpoint query), never a \"?\" concatenation; that the table has exactly the eight parameters from their configured/issued sources; that the return URL is stored and replayed verbatim from scheme/host/path/query; and that every redirect carries the no-cache headers. Character-level escaping is delegated to net/url.",
          "go/ssa model; net/url contracts"),
- "C03": ("structural-link rules on the redirect/callback model (cookie name and id round trip, return address), edge-sensitive guard rule on every expiry computation and on the reader (sibling agreement on `expiry unknown`), sibling cross-check of the two IdP-response validators, path-existence rule for the fresh path",
+ "C03": ("structural-link rules on the redirect/callback model (cookie name and id round trip, return address), edge-sensitive guard rule on every expiry computation and on the reader (sibling agreement on `expiry unknown`), sibling cross-check of the two IdP-response validators, exhaustive classification of every validator rejection (no extra rejections), callback-test shape, path-existence rule for the fresh path",
          "Decides the structural necessary conditions without which the redirect chain cannot close for a compliant IdP: same cookie name and session id on both sides, return to the stored URL with a 302 after binding, `expires_in` omitted ⇒ expiry left unknown by both writers and skipped by the reader, tolerant token_type/unknown-member decoding, and an IdP-free path for fresh tokens. Progress of the composed chain over all IdP behaviours is not decided.",
          "go/ssa model; C13.R3 for the return URL composition"),
- "C09": ("branch facts (logout test dominates every allow / IdP call), assumed-atom path feasibility (remove before answer), failure-region reachability, answer-shape provenance, effect-ordering rule read → IdP round trip → creating write over the own call graph",
+ "C09": ("branch facts (logout test dominates every allow / IdP call), assumed-atom path feasibility (remove before answer), failure-region reachability, answer-shape provenance, logout-test shape, store-level `removal failure is reported` rule, effect-ordering rule read → IdP round trip → creating write over the own call graph",
          "Decides that logout is handled before anything can allow, that the session named by the cookie is removed before the logout answer and a failed removal is reported as an error, that the answer redirects to the configured/discovered end-session URI and expires the cookie, and flags every creating token write that follows a token-endpoint round trip (the schedule clause as an effect ordering). The two existing such writes are genuine, reproduced and listed as known findings; interleavings as such are not explored.",
          "go/ssa model; both stores create the session on write when absent (read from their code in C12)"),
  "C11": ("exact table rule on the refresh form, call-site facts (expired ∧ refresh token present), per-field total-and-guarded merge rule enumerated from the TokenResponse type, refresh-helper summary (exchange OK ∧ validator true), outcome rules on Process",
